@@ -290,7 +290,9 @@ def _oracle_decimal(im: Impl, case, v, d, text):
         elif want_neg:
             # documented decoration: MINUS -> minus sign; PARENTHESES styles and accounting -> parentheses
             parens = ns >= 2 or (kind == "cur" and acct)
-            if parens != ("(" in body) or parens == ("-" in body):
+            has_paren = body.startswith("(")
+            has_minus = body.lstrip("(").startswith("-")
+            if parens != has_paren or parens == has_minus:
                 return (_sig(kind, "negative-style", v, style), f"{case}: {text!r} does not follow negative style {ns}")
     elif shown_neg and not want_neg and not (v == 0 and str(v).startswith("-")):
         return (_sig(kind, "sign", v, style), f"{case}: {text!r} negative zero for a non-negative value")
@@ -601,7 +603,10 @@ def trusted(ctx: Ctx):
         "repr(float(s)) returns the digits of s for a decimal s with <= 15 significant digits (DBL_DIG = 15): used for "
         "str(sigfig.round(x, sigfigs=15)) in the automatic-places branch; exercised by the correspondence",
         "sigfig 1.3.19 (round_by_decimals, decimate) is modelled arithmetically (NumFormat.v header), not verified",
-        "fractions.Fraction.limit_denominator (CPython 3.12) is mirrored by NumFormat.limit_denominator",
+        "fractions.Fraction.limit_denominator (CPython 3.12) is mirrored by NumFormat.limit_denominator (its termination, "
+        "denominator bound and closest-fraction property are theorems about the mirror)",
+        "Python's '%E' formatting of a float and Python's round() are modelled as exact round-half-even of the binary value "
+        "(Digits.round_float / rne_div)",
         "tools/gen_c13.py: reads CURRENCY_SYMBOLS, CURRENCIES and the format constants (Gen/GenC13.v; tie c13_tables)",
         "negative style RED shows no sign in the text (the sign is a colour): text readers compare magnitudes for that style",
     ])
@@ -611,7 +616,8 @@ def trusted(ctx: Ctx):
         "decimal_places in 0..10 or None (automatic; 2 for currencies); base_places 0..8",
         "formats are evaluated on an open document (Table.write + set_cell_formatting + formatted_value); what a value "
         "becomes after save and reload is C01's property",
-        "custom number formats (_decode_number_format) are not part of the property's built-in formats and are not modelled",
+        "custom number formats (_decode_number_format) are not part of the property's built-in formats and are not modelled; "
+        "only their last step _expand_quotes is (model + theorems + correspondence)",
         "star ratings: integer values 0 <= n (the control's domain)",
     ]
     ctx.extra["rule"] = (
@@ -670,6 +676,16 @@ def run(ctx: Ctx) -> int:
         ctx.compare("readers", keep, reqs, want, exe)
         bc, reqs, want = b64_requests(values)
         ctx.compare("binary64", bc, reqs, want, exe)
+        # _expand_quotes (anchored private function of the custom-format path) on quote-heavy strings
+        from numbers_parser.cell import _expand_quotes
+        q = chr(39)
+        qs = ["", q, q * 2, q * 3, "a" + q + "b", q + "a" + q + "b", "a" + q * 2 + "b", q + "a" + q * 2 + "b" + q,
+              "12" + q + "kg" + q, q + "$" + q + "1,234.50", "1" + q, q * 4]
+        alpha = [q, q, "a", "1", ".", " ", "#", "0", ","]
+        for _ in range(3000 if ctx.quick else 30000):
+            qs.append("".join(ctx.rng.choice(alpha) for _ in range(ctx.rng.randrange(0, 9))))
+        reqs = ["exq\t" + common.cps(x) if x else "exq" for x in qs]
+        ctx.compare("expand_quotes", qs, reqs, [_expand_quotes(x) for x in qs], exe, nontrivial=lambda c, o: q in c)
     # implementation-only oracle
     for c, t in zip(cases, texts):
         ctx.count("oracle")
